@@ -211,4 +211,65 @@ theorem tempo_history_grid (s dt : Rat) (hdt : 0 ≤ dt) (e : Rat) (es : List Ra
   (compute_history_grid (tempo_num_step s dt) (tempo_time s dt)
     (fun a b h => labels_monotone s dt hdt a b h) e es).2
 
+/-! ### PtTebd.compute and the `num_steps` of the dynamics functions (regenerated) -/
+
+/-- `PtTebd.compute(end_step)` stops exactly at `end_step` (or stays where it is when that step has
+    already been passed), whatever the constructor's start step and however many `compute` calls
+    came before: the regenerated count of `compute_step()` calls added to the current step gives
+    `max cur end_step`. -/
+theorem tebd_compute_reaches (ks cur e : Int) :
+    cur + tebd_compute_steps ks cur e = max cur e := by
+  unfold tebd_compute_steps
+  simp only
+  omega
+
+/-- the count is never negative (the loop cannot "run backwards") -/
+theorem tebd_compute_steps_nonneg (ks cur e : Int) : 0 ≤ tebd_compute_steps ks cur e := by
+  unfold tebd_compute_steps
+  simp only
+  omega
+
+/-- … hence `compute_history_grid` applies to PtTebd with steps counted from the start step:
+    after any non-empty history of `compute(end_step)` calls the recorded times are exactly the
+    grid `start_time + j·dt`, `j = 0 … (max of the requested end steps) − start_step`. -/
+theorem tebd_history_grid (s dt : Rat) (hdt : 0 ≤ dt) (ks : Int) (e : Rat) (es : List Rat) :
+    let numStep := fun (j : Int) (t : Rat) => tebd_compute_steps ks (ks + j) t.floor
+    let time := fun (j : Int) => tebd_time s dt ks (ks + j)
+    let st := computeAll numStep time (e :: es)
+    st.dyn.pairs = gridPairs (gridTime s dt) (reach numStep (e :: es)) := by
+  intro numStep time
+  have ht : time = gridTime s dt := by
+    funext j
+    show tebd_time s dt ks (ks + j) = gridTime s dt j
+    rw [labels_tebd]
+    congr 1
+    omega
+  rw [ht]
+  exact (compute_history_grid numStep (gridTime s dt)
+    (fun a b h => labels_monotone s dt hdt a b h) e es).2
+
+/-- An explicitly given `num_steps` (zero included) that fits the process tensors is the number of
+    steps taken by compute_dynamics / compute_dynamics_with_field / compute_gradient_and_dynamics. -/
+theorem cd_num_steps_given (n : Int) (m : Option Int) (h : ∀ k, m = some k → n ≤ k) :
+    cd_resolve_num_steps (some n) m = .ok n := by
+  unfold cd_resolve_num_steps
+  cases m with
+  | none => simp
+  | some k => simp [h k rfl]
+
+/-- `num_steps = None` means the whole (shortest finite) process tensor -/
+theorem cd_num_steps_default (m : Int) : cd_resolve_num_steps none (some m) = .ok m := by
+  unfold cd_resolve_num_steps
+  simp
+
+/-- a request longer than the shortest process tensor is refused, never silently shortened -/
+theorem cd_num_steps_too_long (n m : Int) (h : m < n) :
+    ∃ msg, cd_resolve_num_steps (some n) (some m) = .error msg := by
+  unfold cd_resolve_num_steps
+  simp [Int.not_le.mpr h]
+
+/-- non-vacuity: zero steps, given explicitly, next to a 4-step process tensor -/
+example : cd_resolve_num_steps (some 0) (some 4) = .ok 0 := by decide
+example : (3 : Int) + tebd_compute_steps 0 3 5 = 5 ∧ (5 : Int) + tebd_compute_steps 0 5 5 = 5 := by decide
+
 end OQuPyVerif.Props.C13
